@@ -35,11 +35,11 @@ ASSUMPTIONS = ['a mutated Arc\'s own derived parameters are outside the statemen
 TIERS = {
     'quick': {'shards': 10, 'shards_alt': 4, 'depth': 3, 'depth_alt': 2, 'random': 3000, 'random_alt': 400, 'timeout': 900,
               'min_cases': 20000, 'exhaustive': True,
-              'require_branches': ['model:op-raised', 'state:length-cached-then-mutated', 'seg:reversed-twin',
+              'require_branches': ['model:op-raised', 'state:length-cached-then-mutated', 'seg:reversed-twin', 'seg:hash-collision-pair',
                                    'palette:pairs-compared', 'config:noscipy', 'config:scipy']},
     'thorough': {'shards': 10, 'shards_alt': 4, 'depth': 4, 'depth_alt': 3, 'random': 60000, 'random_alt': 4000,
                  'timeout': 3400, 'min_cases': 500000, 'exhaustive': True,
-                 'require_branches': ['model:op-raised', 'state:length-cached-then-mutated', 'seg:reversed-twin',
+                 'require_branches': ['model:op-raised', 'state:length-cached-then-mutated', 'seg:reversed-twin', 'seg:hash-collision-pair',
                                       'palette:pairs-compared', 'config:noscipy', 'config:scipy']},
 }
 CASE_TIMEOUT = 60
@@ -169,7 +169,7 @@ def _palette():
 
 
 MUTATIONS = ['set0X', 'set-1Y', 'set5X', 'slice02XY', 'slice02empty', 'slice11Z', 'sliceAllEmpty', 'del0', 'del-1',
-             'del7', 'ins0X', 'ins1Z', 'appendY', 'extendXZ', 'pop', 'pop0', 'reverse', 'iaddX', 'start=', 'end=',
+             'del7', 'ins0X', 'ins1Z', 'ins-1Z', 'ins-9X', 'appendY', 'extendXZ', 'pop', 'pop0', 'reverse', 'iaddX', 'start=', 'end=',
              'remove0', 'clear']
 QUERIES = ['length', 'length_loose', 'length_part', 'point', 'T2t', 'ends', 'bbox', 'd', 'eqhash']
 ALPHABET = MUTATIONS + QUERIES
@@ -216,6 +216,10 @@ def apply_mutation(p, model, op, pal):
         return both(lambda: p.insert(0, X), lambda l: l.insert(0, X))
     if op == 'ins1Z':
         return both(lambda: p.insert(1, Z), lambda l: l.insert(1, Z))
+    if op == 'ins-1Z':
+        return both(lambda: p.insert(-1, Z), lambda l: l.insert(-1, Z))
+    if op == 'ins-9X':
+        return both(lambda: p.insert(-9, X), lambda l: l.insert(-9, X))      # a list clamps: lands in front
     if op == 'appendY':
         return both(lambda: p.append(Y), lambda l: l.append(Y))
     if op == 'extendXZ':
@@ -358,7 +362,7 @@ def run_history(ctx, init, ops):
 # segment-level histories
 
 SEG_OPS = ['set_start', 'set_ctrl', 'set_end', 'len', 'len_loose', 'len_depth1', 'len_part', 'point', 'bbox', 'eqhash', 'poly', 'points',
-           'derivative', 'tangent',
+           'derivative', 'tangent', 'hash_collision',
            'reversed_then_mutate_original', 'reversed_then_mutate_copy', 'reversed_query']
 
 
@@ -426,6 +430,20 @@ def run_seg_history(ctx, kind, ops, seed):
             seg_compare(ctx, s, 'derivative(.4)', lambda x: complex(x.derivative(0.4)), ops)
         elif op == 'tangent':
             seg_compare(ctx, s, 'unit_tangent(.6)', lambda x: complex(x.unit_tangent(0.6)), ops)
+        elif op == 'hash_collision':
+            # CPython: hash(-1) == hash(-2), so tuples of control points differing only in -1 / -2 collide;
+            # a cache keyed by hash instead of by value cannot tell the two curves apart
+            ctx.branch('seg:hash-collision-pair')
+            y = float(rng.randint(-5, 5))
+            which = rng.choice(['start', 'control', 'control1', 'control2'])
+            if not hasattr(s, which):
+                which = 'start'
+            setattr(s, which, complex(-1.0, y))
+            seg_compare(ctx, s, 'length()', lambda x: x.length(), ops)
+            assert hash(complex(-1.0, y)) == hash(complex(-2.0, y))
+            setattr(s, which, complex(-2.0, y))
+            seg_compare(ctx, s, 'length() after -1 -> -2', lambda x: x.length(), ops)
+            seg_compare(ctx, s, 'reversed().length() after -1 -> -2', lambda x: x.reversed().length(), ops)
         elif op == 'eqhash':
             f = fresh_seg(s)
             ctx.verdict()
